@@ -68,7 +68,7 @@ def run(tier, seed):
     meta = []
     pi = 0
     for h in hists:
-        ps = probes if not quick else [probes[(pi + k) % len(probes)] for k in range(6)]
+        ps = [probes[(pi * 7 + k) % len(probes)] for k in range(6 if quick else 12)]
         pi += 1
         for p in ps:
             cases.append({"id": len(cases), "calls": [call(*x) for x in h] + [call(*p)]})
